@@ -330,7 +330,8 @@ def gen_parse_cases(rng, tier):
             e = copy.deepcopy(good); e["children"] = [pe]; yield {"op": "fromxml", "elem": e}
             e = copy.deepcopy(good); e["children"].append(pe); yield {"op": "fromxml", "elem": e}
             if ptag == child:
-                for h in HOSTILE + [" ", " On ", "On", "Off", "Ok", "12", "1:30", "1:3", "1;30;00.5", "+5", "1e5", "١٢", "12\n", "1 30", "."]:
+                for h in HOSTILE + [" ", " On ", "On", "Off", "Ok", "12", "1:30", "1:3", "1;30;00.5", "+5", "1e5", "١٢", "12\n", "1 30", ".",
+                                   "10²", "²", "①", "1.₅", "⁵.5", "٣.٥", "1_0", "0x1F", "１２", "½", "Ⅻ", "1.", ".5", "-.5", "1..2", "+", "-"]:
                     e2 = copy.deepcopy(good); c2 = copy.deepcopy(pe); c2["text"] = h; e2["children"] = [c2]
                     yield {"op": "fromxml", "elem": e2}
                 for j in range(len(pe["attrs"])):
